@@ -3,11 +3,15 @@ Test-only instrumentation for the verification harness.
 
 This module only exists when the crate is built with `--cfg emit_rs_emit_verif`. It lets a harness divide
 every wait of a [`crate::Receiver`] (idle polling and retry back-off) so that end-to-end retry scenarios finish
-in milliseconds instead of minutes. The override is process-wide. With the cfg off nothing in the crate changes.
+in milliseconds instead of minutes. The override is process-wide. It also lets a harness wake the threads blocked in a blocking flush or send without
+completing their wait, the way the OS may at any time (a spurious wakeup). With the cfg off nothing in the crate changes.
 */
 
 use std::{
-    sync::atomic::{AtomicU64, Ordering},
+    sync::{
+        atomic::{AtomicU64, Ordering},
+        Arc, Condvar, Mutex, Weak,
+    },
     time::Duration,
 };
 
@@ -24,4 +28,26 @@ pub fn set_wait_divisor(divisor: u32) {
 
 pub(crate) fn scale_wait(wait: Duration) -> Duration {
     wait / (WAIT_DIVISOR.load(Ordering::SeqCst) as u32)
+}
+
+static WAITERS: Mutex<Vec<Weak<(Mutex<bool>, Condvar)>>> = Mutex::new(Vec::new());
+
+pub(crate) fn register_waiter(waiter: &Arc<(Mutex<bool>, Condvar)>) {
+    let mut waiters = WAITERS.lock().unwrap();
+
+    waiters.retain(|waiter| waiter.strong_count() > 0);
+    waiters.push(Arc::downgrade(waiter));
+}
+
+/**
+Wake every thread currently blocked in [`crate::sync::blocking_flush`] or [`crate::sync::blocking_send`] (and the `tokio` variants built on them) without signalling that what it waits for has happened: a spurious wakeup.
+*/
+pub fn wake_blocked_callers_spuriously() {
+    for waiter in WAITERS.lock().unwrap().iter() {
+        if let Some(waiter) = waiter.upgrade() {
+            // Take the lock so a caller between its check of the flag and its wait can't miss the wakeup
+            let _guard = waiter.0.lock().unwrap();
+            waiter.1.notify_all();
+        }
+    }
 }
